@@ -420,17 +420,19 @@ def main():
                 continue
             sig = f["signature"]
             kn = [k for k in known if k[0] == prop and k[1] == sig]
-            if kn:
-                known_lines.append("KNOWN-FINDING: property=%s %s [%s; %d failing schedules, first at p<=%d]" % (prop, kn[0][2], sig, f["count"], f["bound"]))
-                continue
-            nviol += 1
             os.makedirs(repdir, exist_ok=True)
-            path = os.path.join(repdir, sanitize(sig + ("." + "_".join(map(str, rep["args"])) if rep["args"] else "") + ("." + rep["_config"] if rep["_config"] != "verif" else "") + (".tsan" if rep["_flavour"] == "tsan" else "") + (".tso" if rep.get("_tso") else "") + (".spur" if rep.get("_spur") else "")) + ".json")
+            path = os.path.join(repdir, ("known." if kn else "") + sanitize(sig + ("." + "_".join(map(str, rep["args"])) if rep["args"] else "") + ("." + rep["_config"] if rep["_config"] != "verif" else "") + (".tsan" if rep["_flavour"] == "tsan" else "") + (".tso" if rep.get("_tso") else "") + (".spur" if rep.get("_spur") else "")) + ".json")
+            if kn:
+                known_lines.append("KNOWN-FINDING: property=%s %s [%s; %d failing schedules, first at p<=%d; replay=%s]" % (prop, kn[0][2], sig, f["count"], f["bound"], path))
+            else:
+                nviol += 1
             json.dump({"property": prop, "exe": rep["_item"]["exe"], "harness": rep["harness"], "args": rep["args"],
                        "bound": f["bound"], "choices": f["choices"], "key": f["key"], "msg": f["msg"], "signature": sig,
                        "outcome": f["outcome"], "failing_schedules": f["count"], "detail": f["detail"],
                        "flavour": rep["_flavour"], "config": rep["_config"], "tso": bool(rep.get("_tso")), "spurious": bool(rep.get("_spur")),
                        "how_to_replay": "python3 tools/check.py %s --replay %s" % (prop, path)}, open(path, "w"), indent=1)
+            if kn:
+                continue
             viol_lines.append("VIOLATION property=%s replay=%s" % (prop, path))
             sys.stderr.write("  %s: %s\n" % (sig, f["msg"][:300]))
     # ---- evidence ----
